@@ -245,6 +245,23 @@ pub fn corpus(seed: u64, histories: usize) -> Vec<(u8, Vec<u8>)> {
             let im = IdMap::from_set(snap.delete_set.clone(), vec![ContentAttribute::new("who", 7u32), ContentAttribute::new("when", 9u32)]);
             out.push((tid("idmap_v1"), im.encode_v1()));
             out.push((tid("idmap_v2"), im.encode_v2()));
+            // attributed maps whose attribution table is longer than its name table (several values per name, several
+            // attribute sets per client, adjacent and separated ranges): the shape real attribution data has
+            let mut rich = IdMap::<u32>::new();
+            let names = ["who", "when", "why"];
+            let mut clock = [0u32; 2];
+            for k in 0..rng.usize(3..9) {
+                let c = k % 2;
+                clock[c] += rng.u32(0..3);
+                let len = rng.u32(1..4);
+                let n = rng.usize(1..=2);
+                let first = rng.usize(0..3);
+                let attrs: Vec<ContentAttribute<u32>> = (0..n).map(|i| ContentAttribute::new(names[(first + i) % 3], rng.u32(0..3))).collect();
+                rich.insert(yrs::block::BlockRange::new(yrs::block::ID::new(yrs::block::ClientID::new(1 + c as u64), clock[c]), len), attrs);
+                clock[c] += len;
+            }
+            out.push((tid("idmap_v1"), rich.encode_v1()));
+            out.push((tid("idmap_v2"), rich.encode_v2()));
             for (i, assoc) in [(0u32, Assoc::After), (1, Assoc::Before)] {
                 if let Some(si) = rep.roots.t.sticky_index(&txn, i, assoc) {
                     out.push((tid("sticky_v1"), si.encode_v1()));
@@ -357,15 +374,41 @@ pub fn mutate(rng: &mut Rng, base: &[u8], corpus: &[(u8, Vec<u8>)]) -> Vec<u8> {
 }
 
 /// Systematic sweep: every byte position of small payloads x a table of values, every truncation.
-fn sweep_input(k: u64, corpus: &[(u8, Vec<u8>)]) -> (u8, Vec<u8>) {
-    let small: Vec<&(u8, Vec<u8>)> = corpus.iter().filter(|c| c.1.len() <= 96 && !c.1.is_empty()).collect();
-    if small.is_empty() {
-        return corpus[0].clone();
+/// The payloads the systematic sweep works on: per entry point the (up to) 48 shortest distinct payloads of at most
+/// 96 bytes, interleaved so that every entry point gets the same share of the budget.
+pub fn sweep_set(corpus: &[(u8, Vec<u8>)]) -> Vec<(u8, Vec<u8>)> {
+    let mut groups: Vec<Vec<Vec<u8>>> = vec![vec![]; TARGETS.len()];
+    for (t, d) in corpus {
+        if !d.is_empty() && d.len() <= 96 && !groups[*t as usize].contains(d) {
+            groups[*t as usize].push(d.clone());
+        }
     }
-    let c = small[(k as usize) % small.len()];
-    let k = k / small.len() as u64;
-    let pos = (k as usize) % c.1.len();
-    let what = (k / c.1.len() as u64) % 8;
+    for g in groups.iter_mut() {
+        // short ones first, but keep a few of every length class: sort by length and take an even sample
+        g.sort_by_key(|d| d.len());
+        if g.len() > 48 {
+            let n = g.len();
+            *g = (0..48).map(|i| g[i * n / 48].clone()).collect();
+        }
+    }
+    let mut out = vec![];
+    for i in 0..48 {
+        for (t, g) in groups.iter().enumerate() {
+            if let Some(d) = g.get(i) {
+                out.push((t as u8, d.clone()));
+            }
+        }
+    }
+    out
+}
+
+/// Case k of the sweep: mutation kind varies fastest, then the payload, then the byte position, so that a partial sweep
+/// has applied every kind of mutation to the first positions of every payload.
+fn sweep_input(k: u64, small: &[(u8, Vec<u8>)]) -> (u8, Vec<u8>) {
+    let what = k % 8;
+    let k = k / 8;
+    let c = &small[(k as usize) % small.len()];
+    let pos = ((k / small.len() as u64) as usize) % c.1.len();
     let mut d = c.1.clone();
     match what {
         0 => d.truncate(pos),
@@ -384,9 +427,9 @@ fn sweep_input(k: u64, corpus: &[(u8, Vec<u8>)]) -> (u8, Vec<u8>) {
     (c.0, d)
 }
 
-pub fn fuzz_input(seed: u64, idx: u64, corpus: &[(u8, Vec<u8>)]) -> (u8, Vec<u8>) {
-    if idx % 3 == 0 {
-        return sweep_input(idx / 3, corpus);
+pub fn fuzz_input(seed: u64, idx: u64, corpus: &[(u8, Vec<u8>)], small: &[(u8, Vec<u8>)]) -> (u8, Vec<u8>) {
+    if idx % 3 == 0 && !small.is_empty() {
+        return sweep_input(idx / 3, small);
     }
     let mut rng = Rng::with_seed(fnv(format!("fuzz/{}/{}", seed, idx).as_bytes()));
     let (t, base) = &corpus[rng.usize(0..corpus.len())];
@@ -453,6 +496,8 @@ pub fn cmd_fuzz(args: &Args) -> i32 {
         }
     }
     let corp = corpus(seed, 24);
+    let small = sweep_set(&corp);
+    let sweep_total: u64 = small.iter().map(|c| c.1.len() as u64 * 8).sum();
     let mut cnt = Counters::default();
     let mut hashes = vec![];
     let mut violations = vec![];
@@ -460,7 +505,7 @@ pub fn cmd_fuzz(args: &Args) -> i32 {
     let mut samples = vec![];
     let mut evaluations = 0u64;
     for idx in from..from + count {
-        let (t, data) = fuzz_input(seed, idx, &corp);
+        let (t, data) = fuzz_input(seed, idx, &corp, &small);
         if let Some(f) = cand.as_mut() {
             use std::io::Seek;
             let _ = f.seek(std::io::SeekFrom::Start(0));
@@ -503,6 +548,9 @@ pub fn cmd_fuzz(args: &Args) -> i32 {
             }
         }
     }
+    cnt.max("max_sweep_cases_for_a_full_pass", sweep_total);
+    cnt.max("max_sweep_payloads", small.len() as u64);
+    cnt.max("max_sweep_case_index_reached", (from + count) / 3);
     let summary = json!({"workload": "fuzz", "prop": "C10", "tier": tier, "seed": seed, "from": from, "count": count,
         "evaluations": evaluations, "hashes": hashes, "counters": cnt.0, "violations": violations, "samples": samples, "harness_errors": []});
     let text = serde_json::to_string(&summary).unwrap();
